@@ -159,11 +159,24 @@ Proof.
     - use D_stopf. discriminate.
     - (* DWaitF *) use D_waitf. destruct fl; [| congruence | discriminate].
       specialize (A4 eq_refl). congruence.
-    - (* DFlushMt *) use D_flushmt. destruct mt.
-      + discriminate U.
-      + destruct (l0 <? cS c) eqn:E; [discriminate U|]. apply Nat.ltb_ge in E. specialize (A2 E). congruence.
-      + destruct (l0 <? cS c) eqn:E; [discriminate U|]. apply Nat.ltb_ge in E. specialize (A2 E). congruence.
-      + specialize (i_mtnil eq_refl). discriminate i_mtnil.
+    - (* DView *) destruct dkind.
+      + (* DropPrefix: the View's readTs; nothing is in flight any more *)
+        specialize (i_dwexit eq_refl). subst w. specialize (i_dnoorphan eq_refl). subst wch.
+        destruct (i_dnopass eq_refl) as [Hh _]. cbn in i_alive.
+        destruct stale; [specialize (i_stale eq_refl); congruence|].
+        destruct hold.
+        * use D_view. discriminate U.
+        * use H_ts. discriminate U.
+        * use H_check. destruct bw; discriminate U.
+        * discriminate Hh.
+      + use D_noview. discriminate U.
+    - (* DFlushMt *) destruct dkind.
+      + use D_flushmt. destruct mt.
+        * discriminate U.
+        * destruct (l0 <? cS c) eqn:E; [discriminate U|]. apply Nat.ltb_ge in E. specialize (A2 E). congruence.
+        * destruct (l0 <? cS c) eqn:E; [discriminate U|]. apply Nat.ltb_ge in E. specialize (A2 E). congruence.
+        * specialize (i_mtnil eq_refl). discriminate i_mtnil.
+      + use D_skipmt. destruct mt; try discriminate U. specialize (i_mtnil eq_refl). discriminate i_mtnil.
     - use D_stopc. discriminate.
     - (* DWaitC *) destruct (A7 i_csig) as [-> ->]. use D_waitc. discriminate.
     - use (D_do 0). discriminate.
@@ -225,7 +238,7 @@ Lemma mu_step : forall c s l s', cfg_ok c -> inv c s -> work l = true ->
   step true c s l = Some s' -> mu c s' < mu c s.
 Proof.
   intros c s l s' Hc Hi Hw Hs.
-  pose proof (inv_step _ _ _ _ Hc Hi Hs) as Hi'. destruct Hi' as [Hcr' _ _ _ _ _ _ _ _ _ _ _ _ _ _ _ _ _ _ _ _ _ _ _ _ _ _ _ _ _ _ _ _ _ _].
+  pose proof (inv_step _ _ _ _ Hc Hi Hs) as Hi'. pose proof (i_crash _ _ Hi') as Hcr'. clear Hi'.
   pose proof (i_collect _ _ Hi) as Hcol.
   unfold step in Hs. rewrite (i_crash _ _ Hi) in Hs. clear Hi.
   destruct s. unfold crash, l0_pickable, all_exited, inflight_ts, reqs in *. cbn in Hcol.
@@ -332,11 +345,10 @@ Qed.
 Lemma strict_sub : forall c s l s', step true c s l = Some s' -> step false c s l = Some s'.
 Proof.
   intros c s l s' Hs. unfold step in *. destruct (crashed s); [discriminate|].
-  destruct l; cbn in *; try assumption.
-  - destruct (negb (markalive s)); [discriminate | assumption].
-  - destruct (clo s); try assumption. destruct (drp s); try assumption.
-    destruct (is_passed (hold s) || is_gpassed (g s)); [discriminate | assumption].
-  - destruct (clo s); try assumption. destruct (negb (rdwait s =? 0)); [discriminate | assumption].
+  destruct l; cbn in *; try assumption;
+    repeat (match type of Hs with
+            | context [match ?x with _ => _ end] => destruct x eqn:?; cbn in Hs |- *; try discriminate Hs
+            end); try assumption.
 Qed.
 
 Lemma reach_strict_sub : forall c s, reach true c s -> reach false c s.
